@@ -6,6 +6,7 @@
 #include "harness/vh.hpp"
 #include "bytecode_machine.hpp"   // only for the ceil_* opcode range constants used to *bias* generation
 #include "common.hpp"
+#include <ctime>
 
 namespace pg {
 
@@ -211,7 +212,9 @@ inline rc::Gen<ProgCase> genProgCase(std::vector<int> shapeWeights, int fastPct,
 inline ProgCase minimize(ProgCase c, const std::function<bool(const ProgCase&)>& stillFails0) {
 	const int N = RANDOMX_PROGRAM_MAX_SIZE;
 	// every candidate runs under the crash/hang attribution of the harness runtime
-	auto stillFails = [&](const ProgCase& t) { vh::current(t.dump()); bool r = stillFails0(t); vh::clearCurrent(); return r; };
+	// (bounded: minimisation quality is best effort, it never decides pass/fail; 400 candidates or 120 s)
+	long budget = 400; time_t t0 = time(nullptr);
+	auto stillFails = [&](const ProgCase& t) { if (budget-- <= 0 || time(nullptr) - t0 > 120) return false; vh::current(t.dump()); bool r = stillFails0(t); vh::clearCurrent(); return r; };
 	uint8_t nopb[8]; put(nopb, nopEquivalent());
 	// halves first, then single instructions
 	for (int span = N / 2; span >= 1; span /= 2) {
